@@ -466,6 +466,9 @@ func R3(pkgs ...string) func(p *core.Prog) *core.Result {
 			if okc {
 				r.Ok(".COLLECT-NIL", p.Pos(fam.collect.Pos()), core.FuncKey(fam.collect)+": incomplete => rest is nil")
 			}
+			if pk == "ubjson" {
+				parkedHead(p, r, fam, fns)
+			}
 			for _, f := range fns {
 				k := &r3client{p: p, fam: fam, fn: f, num: newNumbering()}
 				_, capped := WalkPaths[r3state](k, f.Blocks[0], 0, r3state{}, 300000, nil)
@@ -512,4 +515,83 @@ func R3(pkgs ...string) func(p *core.Prog) *core.Result {
 		}
 		return r
 	}
+}
+
+// ---- PARKED-HEAD (ubjson) ----
+// stepLen parks the length marker and leaves the state unchanged when the
+// length bytes have not arrived. A step that, in the same state, first looks
+// at the chunk head as a MARKER and then calls stepLen is re-entered with the
+// length bytes at the head of the next chunk: the head read must be behind
+// `p.marker == noMarker`.
+type phState struct {
+	head   bool // the chunk head was interpreted without knowing that no marker is parked
+	noMark bool
+}
+type phClient struct {
+	p     *core.Prog
+	fn    *ssa.Function
+	chunk ssa.Value
+	bad   string
+	calls int
+}
+
+func (k *phClient) Key(s phState) string                             { return fmt.Sprint(s.head, s.noMark) }
+func (k *phClient) Phis(s phState, _ *ssa.BasicBlock, _ int) phState { return s }
+func (k *phClient) Return(phState, *ssa.Return)                      {}
+func (k *phClient) Instr(s phState, in ssa.Instruction) (phState, bool, []phState) {
+	switch x := in.(type) {
+	case *ssa.IndexAddr:
+		if x.X == k.chunk && !s.noMark {
+			if c, ok := constIntVal(x.Index); ok && c == 0 {
+				s.head = true
+			}
+		}
+	case *ssa.Call:
+		if sc := x.Common().StaticCallee(); sc != nil && sc.Name() == "stepLen" {
+			k.calls++
+			if s.head {
+				k.bad = "looks at the first byte of the chunk as a marker and then, in the same state, calls stepLen at " + k.p.Pos(x.Pos()) + ": when the length bytes arrive in a later chunk the step is re-entered with a LENGTH byte at the head and interprets it as a marker (a key length of 125 = '}' split after its length marker ends the object)"
+			}
+		}
+	}
+	return s, true, nil
+}
+func (k *phClient) Branch(s phState, cond ssa.Value, outcome bool) (phState, bool) {
+	if bo, ok := cond.(*ssa.BinOp); ok && (bo.Op == token.EQL || bo.Op == token.NEQ) {
+		for _, pr := range [][2]ssa.Value{{bo.X, bo.Y}, {bo.Y, bo.X}} {
+			ld, ok := pr[0].(*ssa.UnOp)
+			if !ok || ld.Op != token.MUL {
+				continue
+			}
+			if fieldOfReceiver(k.fn, ld.X) != "marker" || !isIntConst(pr[1], 0) {
+				continue
+			}
+			if (bo.Op == token.EQL) == outcome {
+				s.noMark = true
+			}
+		}
+	}
+	return s, true
+}
+
+func parkedHead(p *core.Prog, r *core.Result, fam *parserFamily, fns []*ssa.Function) {
+	n := 0
+	for _, f := range fns {
+		sf, ok := fam.steps[f]
+		if !ok || f.Name() == "stepLen" {
+			continue
+		}
+		k := &phClient{p: p, fn: f, chunk: sf.chunk}
+		WalkPaths[phState](k, f.Blocks[0], 0, phState{}, 100000, nil)
+		if k.calls == 0 {
+			continue
+		}
+		n++
+		if k.bad == "" {
+			r.Ok(".PARKED-HEAD", p.Pos(f.Pos()), core.FuncKey(f)+": no marker interpretation of the chunk head precedes stepLen in the same state")
+		} else {
+			r.Fail(".PARKED-HEAD", core.FuncKey(f), p.Pos(f.Pos()), core.FuncKey(f)+" "+k.bad, "")
+		}
+	}
+	r.Floor("steplen_callers", n, 5)
 }
